@@ -71,6 +71,7 @@ def setAttrList (p : Props) (name : String) (vs : List PVal) : Except Exc Props 
     | none => .error .keyError
     | some (_, pkts) =>
       if !pkts.contains p.ptype then .error .mqttException
+      else if Gen.propRulesOnLists && vs.any (valueForbidden name) then .error .mqttException
       else if allowsMultiple i then .ok (putAttr p i ((getAttr p i).getD [] ++ vs))
       else .error .other   -- a list stored in a non-repeatable property: outside the model
 
